@@ -29,6 +29,10 @@ import ODataVerif.Spec.ODataElab
 import ODataVerif.Model.Orm
 import ODataVerif.Spec.OrmSql
 import ODataVerif.Spec.OrmSemOk
+import ODataVerif.Spec.RelSem
+import ODataVerif.Spec.RelElab
+import ODataVerif.Model.OrmRel
+import ODataVerif.Spec.OrmRelSem
 open OQ OQ.Wire
 
 def encTok : Tok → String
@@ -167,6 +171,14 @@ def decRow (r : String) : Option Spec.Row :=
 
 def decRows (rs : String) : Option (List Spec.Row) :=
   if rs.isEmpty then some [] else (rs.splitOn "|").mapM decRow
+
+/-- database on the wire: tables separated by `~`, each `name=<rows>` (rows as in `decRows`) -/
+def decDB (s : String) : Option Spec.DB :=
+  if s.isEmpty then some [] else
+  (s.splitOn "~").mapM (fun t =>
+    match t.splitOn "=" with
+    | [n, rs] => (decRows rs).map (fun rows => (n.toList, rows))
+    | _ => none)
 
 def encV3 : Spec.V3 → String
   | .tt => "T" | .ff => "F" | .unk => "U"
@@ -309,6 +321,35 @@ def handle (args : List String) : String :=
                  | _, none => "noelab")
             | .foreign "unmodelled" => "unmodelled"
             | o => encOutcome (fun _ => "") o)
+  | ["releval", tbl, w, dbs] =>
+      -- RelSem on every row of the root table: T / F / U per row (in table order); "noelab" / "noschema"
+      withExpr w (fun e =>
+        match Spec.elabR Spec.vKind none e, decDB dbs with
+        | some f, some db =>
+            let rows := Spec.DB.table db tbl.toList
+            " ".intercalate (rows.map (fun r => (if Spec.lambdaClean Spec.vSchema db tbl.toList r f then "" else "x") ++
+                                               (match Spec.evalR Spec.vSchema db tbl.toList r f with
+                                                | some v => encV3 v
+                                                | none => "?")))
+        | none, _ => "noelab"
+        | _, none => "bad-db")
+  | ["relplan", backend, tbl, w, dbs] =>
+      -- the plan model of a backend (dj | sa) evaluated by the environment model on every row of the root table
+      withExpr w (fun e =>
+        match decDB dbs with
+        | none => "bad-db"
+        | some db =>
+            let rows := Spec.DB.table db tbl.toList
+            if backend == "dj" then
+              match djPlan Spec.vSchema Spec.vKind 12 tbl.toList e with
+              | .ok p => "ok " ++ " ".intercalate (rows.map (fun r => encV3 (Spec.evalDjPlan Spec.vSchema db tbl.toList r p)))
+              | .error er => "err " ++ (match er with | .typeLambda => "typeLambda" | .noField => "noField" | .unsupported => "unsupported")
+            else
+              match saPlan Spec.vSchema Spec.vKind 12 tbl.toList e with
+              | .ok p => "ok " ++ " ".intercalate (rows.map (fun r => match Spec.evalSaPlan Spec.vSchema db p.joins tbl.toList r p.clause with
+                                                                     | some v => encV3 v
+                                                                     | none => "?"))
+              | .error er => "err " ++ (match er with | .typeLambda => "typeLambda" | .noField => "noField" | .unsupported => "unsupported"))
   | ["djbuild", w] => withExpr w (fun e => encOrmOutcome (djBuild e))
   | ["sabuild", mode, fs, w] =>
       withExpr w (fun e => encOrmOutcome (saBuild ((fs.splitOn ",").map String.toList) (mode == "core") e))
